@@ -281,7 +281,12 @@ def handleScan (ds : DState) (sc : ScanCase) : DState × Json :=
     -- C20 on the observed outcome
     let mon20 : List String :=
       if sc.obs.outcome.startsWith "panic:" then ["C20:panic:" ++ sc.obs.outcome]
-      else if sc.obs.outcome == "fatal:rebuild-failed" || sc.obs.outcome == "fatal:group-missing" then ["C20:fatal:rebuild-failed"]
+      else if sc.obs.outcome == "fatal:rebuild-failed" || sc.obs.outcome == "fatal:group-missing" then
+        -- the recorded finding T5 is the stop after a failed refresh and a rebuild of the provider; the same error in a scan
+        -- whose refresh did not fail (so nothing was rebuilt) is another matter
+        if sc.obs.pre.any (fun e => !e.ok || (match e.call with | .build => true | _ => false)) then ["C20:fatal:rebuild-failed"]
+        else ["C20:fatal:undocumented-stop:" ++ sc.obs.outcome ++ ":the provider was not rebuilt in this scan, yet RunOnce gave up on a cloud group",
+              "C12:" ++ ((sc.obs.recs.getLast?.map (·.name)).getD "?") ++ ":groups-not-processed:" ++ sc.obs.outcome ++ " without a rebuild of the provider"]
       else if sc.obs.outcome == "fatal:fleet-strikes" then ["C20:fatal:fleet-strikes"]
       else if sc.obs.outcome.startsWith "fatal:unexpected" then ["C20:fatal:undocumented-stop:" ++ sc.obs.outcome]
       else []
